@@ -4,8 +4,16 @@ import json, subprocess, os
 V = '/verif'
 props = [json.loads(l) for l in open(f'{V}/properties.jsonl')]
 claims = json.load(open(f'{V}/tools/claims.json'))
-hooks = subprocess.run(['git', '-C', '/repo', 'log', '--format=%H %s'], capture_output=True, text=True).stdout.splitlines()
-hook_commits = [l.split()[0] for l in hooks if ' verif:' in l or l.split(' ', 1)[1].startswith('verif:')]
+def _hook_commits():
+    # a hook commit is any commit after the pinned snapshot that touches only guarded contract files (zz_*_verif.go, //go:build verif)
+    out = []
+    revs = subprocess.run(['git', '-C', '/repo', 'log', '--format=%H'], capture_output=True, text=True).stdout.split()
+    for h in revs[:-1]:
+        files = subprocess.run(['git', '-C', '/repo', 'show', '--format=', '--name-only', h], capture_output=True, text=True).stdout.split()
+        if files and all(os.path.basename(f).startswith('zz_') and f.endswith('_verif.go') for f in files):
+            out.append(h)
+    return out
+hook_commits = _hook_commits()
 checks, na = [], []
 for p in props:
     c = claims['claimed'].get(p['id'])
